@@ -1928,3 +1928,395 @@ Theorem load_xmi_old_short_name_refuted :
 Proof. exists ts_foo, doc_foo. split; vm_compute; reflexivity. Qed.
 Example load_xmi_strict_short_name : load_xmi (fun _ => None) ts_foo false doc_foo = Err ETypeNotFound.
 Proof. vm_compute. reflexivity. Qed.
+(* ================================================================================================ C05, part 5:
+   the first loop as three independent traversals; dict = list when the keys are distinct *)
+Section Split.
+Variable pf : string -> option flt.
+
+Lemma zlookup_zset {V} k k' (v : V) d : zlookup k (zset k' v d) = if k =? k' then Some v else zlookup k d.
+Proof.
+  induction d as [|[k0 v0] r IH]; cbn [zset zlookup].
+  - destruct (k =? k'); reflexivity.
+  - destruct (k' =? k0) eqn:E; cbn [zlookup].
+    + apply Z.eqb_eq in E. subst k0. destruct (k =? k'); reflexivity.
+    + rewrite IH. destruct (k =? k0) eqn:E0; [|reflexivity]. apply Z.eqb_eq in E0. subst k0.
+      rewrite Z.eqb_sym in E. rewrite E. reflexivity.
+Qed.
+Lemma zlookup_none_notin {V} k (l : list (Z * V)) : zlookup k l = None <-> ~ In k (map fst l).
+Proof.
+  induction l as [|[k0 v0] r IH]; cbn [zlookup map fst In]; [tauto|]. destruct (k =? k0) eqn:E.
+  - apply Z.eqb_eq in E. subst. split; [discriminate|]. intros H. exfalso. apply H. left. reflexivity.
+  - rewrite IH. apply Z.eqb_neq in E. split; [intros H [H1|H1]; [congruence|auto]|tauto].
+Qed.
+Lemma zset_fresh {V} k (v : V) d : ~ In k (map fst d) -> zset k v d = d ++ [(k, v)].
+Proof.
+  induction d as [|[k0 v0] r IH]; cbn [zset map fst In app]; intros H; [reflexivity|].
+  destruct (k =? k0) eqn:E; [apply Z.eqb_eq in E; subst; exfalso; apply H; left; reflexivity|].
+  rewrite IH; [reflexivity|]. intros Hin. apply H. right. exact Hin.
+Qed.
+Lemma fold_zset_nodup {A V} (key : A -> Z) (val : A -> V) l : forall acc,
+  NoDup (map fst acc ++ map key l) ->
+  fold_left (fun a x => zset (key x) (val x) a) l acc = acc ++ map (fun x => (key x, val x)) l.
+Proof.
+  induction l as [|x r IH]; intros acc ND; cbn [fold_left map]; [rewrite app_nil_r; reflexivity|].
+  cbn [map] in ND. rewrite zset_fresh.
+  - rewrite IH; [rewrite <- app_assoc; reflexivity|]. rewrite map_app. cbn [map fst]. rewrite <- app_assoc. exact ND.
+  - intros Hin. apply NoDup_remove_2 in ND. apply ND. apply in_or_app. left. exact Hin.
+Qed.
+
+Definition is_otherb := is_other.
+Lemma pass1_split s : forall d st st', pass1 pf s false st d = Ok st' ->
+  exists ps pvs os,
+    mapM parse_sofa (filter is_sofa d) = Ok ps /\ mapM parse_view (filter is_view d) = Ok pvs /\
+    mapM (parse_fs pf s) (filter is_other d) = Ok os /\
+    p_sofas st' = fold_left (fun a so => zset (ps_id so) so a) ps (p_sofas st) /\
+    p_views st' = fold_left (fun a pv => zset (fst pv) (snd pv) a) pvs (p_views st) /\
+    p_fss st' = fold_left (fun a o => zset (lo_id o) o a) os (p_fss st) /\
+    p_lids st' = p_lids st.
+Proof.
+  unfold pass1. induction d as [|e r IH]; intros st st' H; cbn [pass1_with] in H.
+  - inversion H; subst. exists [], [], []. cbn. auto 10.
+  - apply bind_ok in H as (st1 & H1 & H). destruct (IH _ _ H) as (ps & pvs & os & A1 & A2 & A3 & B1 & B2 & B3 & B4).
+    unfold step1_with in H1. cbn [filter]. assert (Ho : is_other e = negb (is_sofa e || is_view e)) by reflexivity. rewrite Ho. clear Ho.
+    destruct (is_sofa e) eqn:Es.
+    + assert (Ev : is_view e = false).
+      { destruct (is_view e) eqn:Ev; [|reflexivity]. destruct (view_not_others e Ev) as (Hx & _). congruence. }
+      rewrite Ev. cbn [orb negb]. apply bind_ok in H1 as (so & Hso & H1). inversion H1; subst st1. cbn [p_sofas p_views p_fss p_lids] in *.
+      exists (so :: ps), pvs, os. cbn [mapM fold_left]. rewrite Hso, A1. cbn [bind]. auto 10.
+    + destruct (is_view e) eqn:Ev; cbn [orb negb].
+      * apply bind_ok in H1 as (pv & Hpv & H1). inversion H1; subst st1. cbn [p_sofas p_views p_fss p_lids] in *.
+        exists ps, (pv :: pvs), os. cbn [mapM fold_left]. rewrite Hpv, A2. cbn [bind]. auto 10.
+      * fold (parse_fs pf s e) in H1. destruct (parse_fs pf s e) as [o|x|] eqn:Ep; [| |discriminate].
+        -- inversion H1; subst st1. cbn [p_sofas p_views p_fss p_lids] in *.
+           exists ps, pvs, (o :: os). cbn [mapM fold_left]. rewrite Ep, A3. cbn [bind]. auto 10.
+        -- destruct x; discriminate.
+Qed.
+End Split.
+Section Stages.
+Variable pf : string -> option flt.
+
+Lemma parse_view_dec e : parse_view e = dec_view e.
+Proof.
+  unfold parse_view, dec_view, req_int. destruct (xattr e "sofa") as [a|]; [|reflexivity].
+  destruct (int_attr a); cbn [bind]; try reflexivity. destruct (xattr e "members"); reflexivity.
+Qed.
+Lemma parse_sofa_dec e so c : parse_sofa e = Ok so -> dec_sofa e = Ok c ->
+  cs_id c = ps_id so /\ cs_num c = ps_num so /\ cs_name c = ps_name so /\ cs_text c = ps_text so /\
+  cs_mime c = ps_mime so /\ cs_uri c = ps_uri so /\ ps_arrp so = None /\
+  match ps_arr so with None => cs_arr c = None | Some a => exists z, int_attr a = Ok z /\ cs_arr c = Some z end.
+Proof.
+  unfold parse_sofa, dec_sofa, req_int, x_id. intros H1 H2.
+  destruct (xattr e A_ID) as [a|]; [|discriminate]. destruct (int_attr a) as [i| |]; cbn [bind] in *; try discriminate.
+  destruct (xattr e "sofaNum") as [b|]; [|discriminate]. destruct (int_attr b) as [num| |]; cbn [bind] in *; try discriminate.
+  destruct (negb _); [discriminate|]. destruct (xattr e "sofaID") as [name|]; cbn [bind] in *; [|discriminate].
+  destruct (match xattr e "sofaString" with Some a0 => _ | None => Ok None end) as [txt| |]; cbn [bind] in *; try discriminate.
+  inversion H1; subst so. cbn [ps_id ps_num ps_name ps_text ps_mime ps_uri ps_arr ps_arrp].
+  unfold opt_int in H2. destruct (xattr e "sofaArray") as [arr|].
+  - destruct (int_attr arr) as [z| |] eqn:Ez; cbn [bind] in H2; try discriminate. inversion H2; subst c. cbn. repeat split; auto. exists z. auto.
+  - cbn [bind] in H2. inversion H2; subst c. cbn. repeat split; auto.
+Qed.
+
+(* pass 2 rewrites each slot of an object on its own *)
+Lemma post_obj_slots s sofas fss o o' ti fd :
+  post_obj pf s sofas fss o = Ok o' -> sch_find s (lo_type o) = Some ti -> NoDup (map fd_name (ti_feats ti)) -> In fd (ti_feats ti) ->
+  lo_type o' = lo_type o /\ lo_id o' = lo_id o /\
+  exists v1, post_feature pf s sofas fss ti fd (lslot o (fd_name fd)) = Ok v1 /\ lslot o' (fd_name fd) = v1.
+Proof.
+  unfold post_obj. intros H Hf ND Hin. rewrite Hf in H. apply bind_ok in H as (sl & Hsl & H). inversion H; subst o'. cbn [lo_type lo_id].
+  split; [reflexivity|split; [reflexivity|]]. unfold lslot at 2. cbn [lo_slots]. clear H.
+  revert sl Hsl ND Hin. induction (ti_feats ti) as [|f r IH]; intros sl Hsl ND Hin; [contradiction|].
+  apply mapM_cons_ok in Hsl as (y & ys & Hy & Hys & ->). apply bind_ok in Hy as (v & Hv & Hy). inversion Hy; subst y.
+  cbn [map] in ND. inversion ND as [|? ? Hn ND']; subst. cbn [alookup].
+  destruct Hin as [->|Hin].
+  - rewrite String.eqb_refl. exists v. auto.
+  - destruct (String.eqb (fd_name fd) (fd_name f)) eqn:E.
+    + apply String.eqb_eq in E. exfalso. apply Hn. rewrite <- E. apply in_map. exact Hin.
+    + apply IH; assumption.
+Qed.
+Lemma lslot_lset o n v k : lslot (lset o n v) k = if String.eqb k n then (match alookup n (lo_slots o) with Some _ => v | None => v end) else lslot o k.
+Proof. unfold lslot, lset. cbn [lo_slots]. rewrite alookup_aset. destruct (String.eqb k n); [destruct (alookup n (lo_slots o)); reflexivity|reflexivity]. Qed.
+
+(* the offsets of an annotation: the table of the text of its own sofa, as the denotation takes it *)
+Lemma conv_z_ext txt z : conv_z txt z = match txt with Some t => ext2py (mk_conv t) z | None => z end.
+Proof.
+  unfold conv_z, Offsets.sofa_new. destruct txt as [[|c r]|]; cbn [Offsets.s_tbl]; try reflexivity.
+  symmetry. apply ext2py_empty.
+Qed.
+End Stages.
+Section ViewLoop.
+Variable s : schema.
+
+Definition rw (k : xid) (name : string) (ko : xid * lobj) : xid * lobj := (fst ko, rewire k name (snd ko)).
+Definition sofa_slot_in (k : xid) (name : string) (o : lobj) : Prop :=
+  alookup "sofa" (lo_slots o) = Some (LSofa k) \/ alookup "sofa" (lo_slots o) = Some (LVSofa name).
+(* what Cas.add needs of a member m of the view of sofa k *)
+Definition member_ready (k : xid) (name : string) (objs : list (xid * lobj)) (m : xid) : Prop :=
+  exists o ti, zlookup m objs = Some o /\ contains_exact s (lo_type o) = true /\ sch_find s (lo_type o) = Some ti /\
+               (has_feat ti "sofa" = true -> sofa_slot_in k name o).
+
+Lemma aset_same {V} k (v : V) d : alookup k d = Some v -> aset k v d = d.
+Proof.
+  induction d as [|[k0 v0] r IH]; cbn [alookup aset]; [discriminate|]. destruct (String.eqb k k0) eqn:E.
+  - intros H. inversion H; subst. reflexivity.
+  - intros H. rewrite (IH H). reflexivity.
+Qed.
+Lemma rewire_lset k name o : sofa_slot_in k name o -> rewire k name (lset o "sofa" (LVSofa name)) = rewire k name o.
+Proof.
+  intros [H|H]; unfold rewire, lset; cbn [lo_slots lo_type lo_id]; rewrite alookup_aset, String.eqb_refl, H.
+  - rewrite Z.eqb_refl. unfold lset. reflexivity.
+  - rewrite (aset_same _ _ _ H). destruct o; reflexivity.
+Qed.
+Lemma map_rw_zset k name m o o2 objs : zlookup m objs = Some o -> rewire k name o2 = rewire k name o ->
+  map (rw k name) (zset m o2 objs) = map (rw k name) objs.
+Proof.
+  intros Hl He. induction objs as [|[k0 v0] r IH]; cbn [zlookup zset map] in *; [discriminate|].
+  destruct (m =? k0) eqn:E; cbn [map].
+  - inversion Hl; subst v0. unfold rw at 1 3. cbn [fst snd]. rewrite He. reflexivity.
+  - rewrite (IH Hl). reflexivity.
+Qed.
+Lemma zlookup_zset_other {V} k m (v : V) d : zlookup k (zset m v d) = if k =? m then Some v else zlookup k d.
+Proof. apply zlookup_zset. Qed.
+
+Lemma member_ready_after k name objs m o m' :
+  zlookup m objs = Some o ->
+  member_ready k name objs m' -> member_ready k name (zset m (lset o "sofa" (LVSofa name)) objs) m'.
+Proof.
+  intros Hl (o' & ti & H1 & H2 & H3 & H4).
+  unfold member_ready. rewrite zlookup_zset. destruct (m' =? m) eqn:E.
+  - apply Z.eqb_eq in E. subst m'. rewrite Hl in H1. inversion H1; subst o'.
+    exists (lset o "sofa" (LVSofa name)), ti. cbn [lset lo_type]. repeat split; auto.
+    intros _. unfold sofa_slot_in. right. unfold lset. cbn [lo_slots]. rewrite alookup_aset, String.eqb_refl. reflexivity.
+  - exists o', ti. auto.
+Qed.
+
+Lemma add_members_spec k name ms : forall objs added,
+  Forall (member_ready k name objs) ms ->
+  exists objs', add_members s false name [] ms objs added = Ok (objs', added ++ ms) /\
+                map (rw k name) objs' = map (rw k name) objs.
+Proof.
+  induction ms as [|m r IH]; intros objs added HF; cbn [add_members].
+  - exists objs. rewrite app_nil_r. auto.
+  - cbn [memZ]. inversion HF as [|? ? Hm HF']; subst. destruct Hm as (o & ti & H1 & H2 & H3 & H4).
+    unfold add_member. rewrite H1. rewrite (add_guard_typed s false _ H2). cbn [bind]. rewrite H3.
+    destruct (has_feat ti "sofa") eqn:Ehf; cbn [bind].
+    + destruct (IH (zset m (lset o "sofa" (LVSofa name)) objs) (added ++ [m])) as (objs' & Ha & Hr).
+      { eapply Forall_impl; [|exact HF']. intros m' Hm'. apply member_ready_after; assumption. }
+      exists objs'. rewrite Ha, <- app_assoc. split; [reflexivity|]. rewrite Hr.
+      apply (map_rw_zset k name m o); [exact H1|]. apply rewire_lset. apply H4. reflexivity.
+    + destruct (IH objs (added ++ [m]) HF') as (objs' & Ha & Hr). exists objs'. rewrite Ha, <- app_assoc. auto.
+Qed.
+End ViewLoop.
+Section ViewLoop2.
+Variable s : schema.
+Variable pviews : list (xid * list xid).
+Variable objs1 : list (xid * lobj).
+
+Definition lsofa_of (so : psofa) : lsofa :=
+  mkLs (ps_id so) (ps_num so) (ps_name so) (ps_text so) (ps_mime so) (ps_uri so) (ps_arrp so).
+Definition members_for (so : psofa) : list xid := match zlookup (ps_id so) pviews with Some ms => ms | None => [] end.
+(* the sofa references of the objects once the sofas of P have been turned into views *)
+Definition fixP (P : list (xid * psofa)) (o : lobj) : lobj :=
+  match alookup "sofa" (lo_slots o) with
+  | Some (LSofa k') => match zlookup k' P with Some so' => lset o "sofa" (LVSofa (ps_name so')) | None => o end
+  | _ => o
+  end.
+Definition names (P : list (xid * psofa)) : list string := map (fun kso => ps_name (snd kso)) P.
+
+Lemma zlookup_app {V} k (l1 l2 : list (Z * V)) :
+  zlookup k (l1 ++ l2) = match zlookup k l1 with Some v => Some v | None => zlookup k l2 end.
+Proof. induction l1 as [|[k0 v0] r IH]; cbn [app zlookup]; [reflexivity|]. destruct (k =? k0); [reflexivity|exact IH]. Qed.
+Lemma rewire_fixP P k so o : ~ In k (map fst P) -> rewire k (ps_name so) (fixP P o) = fixP (P ++ [(k, so)]) o.
+Proof.
+  intros Hk. unfold fixP. destruct (alookup "sofa" (lo_slots o)) as [v|] eqn:Es.
+  - destruct v; try (unfold rewire; rewrite Es; reflexivity).
+    rewrite zlookup_app. destruct (zlookup k0 P) as [so'|] eqn:El.
+    + unfold rewire, lset. cbn [lo_slots]. rewrite alookup_aset, String.eqb_refl. reflexivity.
+    + cbn [zlookup]. unfold rewire. rewrite Es. destruct (k0 =? k); reflexivity.
+  - unfold rewire. rewrite Es. reflexivity.
+Qed.
+Lemma fixP_type P o : lo_type (fixP P o) = lo_type o.
+Proof. unfold fixP. destruct (alookup "sofa" (lo_slots o)) as [[]|]; try reflexivity. destruct (zlookup k P); reflexivity. Qed.
+Lemma fixP_id P o : lo_id (fixP P o) = lo_id o.
+Proof. unfold fixP. destruct (alookup "sofa" (lo_slots o)) as [[]|]; try reflexivity. destruct (zlookup k P); reflexivity. Qed.
+Lemma zlookup_map_obj (f : lobj -> lobj) k (l : list (xid * lobj)) :
+  zlookup k (map (fun ko => (fst ko, f (snd ko))) l) = option_map f (zlookup k l).
+Proof. induction l as [|[k0 v0] r IH]; cbn [map zlookup fst snd]; [reflexivity|]. destruct (k =? k0); [reflexivity|exact IH]. Qed.
+
+(* a member of the view of sofa k is ready for Cas.add: it exists, its type is defined, and if it has a feature named
+   sofa that slot points to sofa k *)
+Definition member_ready0 (k : xid) (m : xid) : Prop :=
+  exists o ti, zlookup m objs1 = Some o /\ contains_exact s (lo_type o) = true /\ sch_find s (lo_type o) = Some ti /\
+               (has_feat ti "sofa" = true -> alookup "sofa" (lo_slots o) = Some (LSofa k)).
+Lemma member_ready_of0 P k name m : ~ In k (map fst P) -> member_ready0 k m ->
+  member_ready s k name (map (fun ko => (fst ko, fixP P (snd ko))) objs1) m.
+Proof.
+  intros Hk (o & ti & H1 & H2 & H3 & H4). exists (fixP P o), ti. rewrite zlookup_map_obj, H1, fixP_type. repeat split; auto.
+  intros Hf. left. specialize (H4 Hf). unfold fixP. rewrite H4.
+  assert (zlookup k P = None) as -> by (apply zlookup_none_notin; exact Hk). exact H4.
+Qed.
+
+Record Inv (P : list (xid * psofa)) (views : list (string * lview)) (objs : list (xid * lobj)) : Prop := mkInv {
+  i_nd : NoDup (map fst views);
+  i_look : forall kso, In kso P -> alookup (ps_name (snd kso)) views = Some (mkLv (lsofa_of (snd kso)) (members_for (snd kso)));
+  i_init : ~ In INITIAL (names P) -> alookup INITIAL views = Some initial_view;
+  i_keys : forall n, In n (map fst views) -> n = INITIAL \/ In n (names P);
+  i_objs : objs = map (fun ko => (fst ko, fixP P (snd ko))) objs1 }.
+
+Lemma alookup_some_in {V} k (l : list (string * V)) v : alookup k l = Some v -> In k (map fst l).
+Proof.
+  intros H. destruct (in_dec string_dec k (map fst l)) as [Hin|Hn]; [exact Hin|]. apply alookup_none_notin in Hn. congruence.
+Qed.
+Lemma aset_keys_existing {V} k (v : V) d : In k (map fst d) -> map fst (aset k v d) = map fst d.
+Proof.
+  induction d as [|[k0 v0] r IH]; cbn [aset map fst In]; [contradiction|]. destruct (String.eqb k k0) eqn:E; cbn [map fst]; [reflexivity|].
+  intros [H|H]; [subst; rewrite String.eqb_refl in E; discriminate|]. rewrite (IH H). reflexivity.
+Qed.
+
+Lemma NoDup_app_intro_single {A} (l : list A) x : NoDup l -> ~ In x l -> NoDup (l ++ [x]).
+Proof.
+  induction l as [|y r IH]; cbn [app]; intros ND Hn; [constructor; [intros []|constructor]|].
+  inversion ND; subst. constructor.
+  - intros Hin. apply in_app_or in Hin as [Hin|[Hin|[]]]; [contradiction|]. subst. apply Hn. left. reflexivity.
+  - apply IH; [assumption|]. intros Hin. apply Hn. right. exact Hin.
+Qed.
+Lemma view_step_spec P k so views objs :
+  Inv P views objs -> ~ In k (map fst P) -> ~ In (ps_name so) (names P) -> ps_id so = k ->
+  Forall (member_ready0 k) (members_for so) ->
+  exists views' objs', view_step s false pviews [] (views, objs) (k, so) = Ok (views', objs') /\ Inv (P ++ [(k, so)]) views' objs'.
+Proof.
+  intros [Ind Ilook Iinit Ikeys Iobjs] Hk Hn Hid Hmem. unfold view_step. cbn [snd fst].
+  (* the view of this sofa *)
+  assert (Hv1 : exists views1,
+    (if String.eqb (ps_name so) INITIAL then
+       match alookup INITIAL views with Some v => Ok (aset INITIAL (set_view_sofa so v) views) | None => Err EKey end
+     else if amem (ps_name so) views then Err EValue else Ok (views ++ [(ps_name so, new_view so)])) = Ok views1 /\
+    alookup (ps_name so) views1 = Some (mkLv (lsofa_of so) []) /\ NoDup (map fst views1) /\
+    (forall n, String.eqb n (ps_name so) = false -> alookup n views1 = alookup n views) /\
+    (forall n, In n (map fst views1) -> n = ps_name so \/ In n (map fst views))).
+  { destruct (String.eqb (ps_name so) INITIAL) eqn:Ei.
+    - apply String.eqb_eq in Ei. rewrite Ei in Hn. rewrite (Iinit Hn).
+      exists (aset INITIAL (set_view_sofa so initial_view) views). split; [reflexivity|]. rewrite Ei.
+      split; [rewrite alookup_aset, String.eqb_refl; unfold set_view_sofa, lsofa_of, initial_view; cbn; rewrite Ei; reflexivity|].
+      split; [apply aset_keys_nodup; exact Ind|]. split.
+      + intros n Hne. rewrite alookup_aset, Hne. reflexivity.
+      + intros n Hin. apply aset_keys_in in Hin. tauto.
+    - assert (Ha : amem (ps_name so) views = false).
+      { unfold amem. destruct (alookup (ps_name so) views) as [v|] eqn:Ea; [|reflexivity]. exfalso.
+        apply alookup_some_in in Ea. apply Ikeys in Ea as [Ea|Ea]; [rewrite Ea, String.eqb_refl in Ei; discriminate|contradiction]. }
+      rewrite Ha. exists (views ++ [(ps_name so, new_view so)]). split; [reflexivity|].
+      assert (Hnone : alookup (ps_name so) views = None) by (unfold amem in Ha; destruct (alookup (ps_name so) views); [discriminate|reflexivity]).
+      split; [rewrite alookup_app, Hnone; cbn [alookup]; rewrite String.eqb_refl; reflexivity|].
+      split.
+      + rewrite map_app. cbn [map fst]. apply NoDup_app_intro_single; [exact Ind|]. apply alookup_none_notin. exact Hnone.
+      + split.
+        * intros n Hne. rewrite alookup_app. cbn [alookup]. rewrite Hne. destruct (alookup n views); reflexivity.
+        * intros n Hin. rewrite map_app in Hin. apply in_app_or in Hin as [Hin|[Hin|[]]]; [right; exact Hin|left; symmetry; exact Hin]. }
+  destruct Hv1 as (views1 & -> & Hl1 & Hnd1 & Hoth1 & Hkeys1). cbn [bind].
+  (* the members *)
+  assert (Hready : Forall (member_ready s k (ps_name so) objs) (members_for so)).
+  { rewrite Iobjs. eapply Forall_impl; [|exact Hmem]. intros m Hm. apply member_ready_of0; assumption. }
+  destruct (add_members_spec s k (ps_name so) (members_for so) objs [] Hready) as (objs_a & Hadd & Hrw).
+  unfold members_for in Hadd. rewrite Hadd. cbn [bind fst snd app]. rewrite Hl1.
+  eexists. eexists. split; [reflexivity|]. constructor.
+  - rewrite (aset_keys_existing _ _ _ (alookup_some_in _ _ _ Hl1)). exact Hnd1.
+  - intros kso Hin. apply in_app_or in Hin as [Hin|[<-|[]]].
+    + assert (Hne : String.eqb (ps_name (snd kso)) (ps_name so) = false).
+      { destruct (String.eqb (ps_name (snd kso)) (ps_name so)) eqn:E; [|reflexivity]. apply String.eqb_eq in E. exfalso.
+        apply Hn. rewrite <- E. unfold names. apply (in_map (fun kso => ps_name (snd kso))). exact Hin. }
+      rewrite alookup_aset, Hne, (Hoth1 _ Hne). apply Ilook. exact Hin.
+    + cbn [snd]. rewrite alookup_aset, String.eqb_refl. unfold members_for. reflexivity.
+  - intros Hni. unfold names in Hni. rewrite map_app in Hni. cbn [map snd] in Hni.
+    assert (Hne : String.eqb INITIAL (ps_name so) = false).
+    { destruct (String.eqb INITIAL (ps_name so)) eqn:E; [|reflexivity]. apply String.eqb_eq in E. exfalso. apply Hni. apply in_or_app. right. left. symmetry. exact E. }
+    rewrite alookup_aset, Hne, (Hoth1 _ Hne). apply Iinit. intros Hin. apply Hni. apply in_or_app. left. exact Hin.
+  - intros n Hin. rewrite (aset_keys_existing _ _ _ (alookup_some_in _ _ _ Hl1)) in Hin.
+    unfold names. rewrite map_app. cbn [map snd]. apply Hkeys1 in Hin as [->|Hin].
+    + right. apply in_or_app. right. left. reflexivity.
+    + apply Ikeys in Hin as [Hin|Hin]; [left; exact Hin|right; apply in_or_app; left; exact Hin].
+  - change (map (fun ko => (fst ko, rewire k (ps_name so) (snd ko))) objs_a) with (map (rw k (ps_name so)) objs_a).
+    rewrite Hrw, Iobjs, map_map. apply map_ext. intros [k0 o0]. unfold rw. cbn [fst snd]. rewrite rewire_fixP; auto.
+Qed.
+End ViewLoop2.
+Section ViewLoop3.
+Variable s : schema.
+Variable pviews : list (xid * list xid).
+Variable objs1 : list (xid * lobj).
+
+Lemma view_loop_spec : forall R P views objs,
+  Inv pviews objs1 P views objs -> NoDup (map fst (P ++ R)) -> NoDup (names (P ++ R)) ->
+  (forall kso, In kso R -> ps_id (snd kso) = fst kso) ->
+  (forall kso, In kso R -> Forall (member_ready0 s objs1 (fst kso)) (members_for pviews (snd kso))) ->
+  exists views' objs', view_loop s false pviews [] R (views, objs) = Ok (views', objs') /\ Inv pviews objs1 (P ++ R) views' objs'.
+Proof.
+  induction R as [|[k so] R IH]; intros P views objs HI ND1 ND2 Hid Hm; cbn [view_loop].
+  - exists views, objs. rewrite app_nil_r. auto.
+  - assert (Hk : ~ In k (map fst P)).
+    { rewrite map_app in ND1. cbn [map fst] in ND1. apply NoDup_remove_2 in ND1. intros Hin. apply ND1. apply in_or_app. left. exact Hin. }
+    assert (Hn : ~ In (ps_name so) (names P)).
+    { unfold names in *. rewrite map_app in ND2. cbn [map snd] in ND2. apply NoDup_remove_2 in ND2. intros Hin. apply ND2. apply in_or_app. left. exact Hin. }
+    destruct (view_step_spec s pviews objs1 P k so views objs HI Hk Hn (Hid (k, so) (or_introl eq_refl)) (Hm (k, so) (or_introl eq_refl)))
+      as (views1 & objs1' & Hs & HI1).
+    rewrite Hs. cbn [bind].
+    replace (P ++ (k, so) :: R) with ((P ++ [(k, so)]) ++ R) in * by (rewrite <- app_assoc; reflexivity).
+    apply (IH (P ++ [(k, so)]) views1 objs1' HI1 ND1 ND2).
+    + intros kso Hin. apply Hid. right. exact Hin.
+    + intros kso Hin. apply Hm. right. exact Hin.
+Qed.
+Lemma fixP_nil o : fixP [] o = o.
+Proof. unfold fixP. destruct (alookup "sofa" (lo_slots o)) as [[]|]; reflexivity. Qed.
+Lemma inv_init : Inv pviews objs1 [] [(INITIAL, initial_view)] objs1.
+Proof.
+  constructor.
+  - cbn. constructor; [intros []|constructor].
+  - intros kso [].
+  - intros _. reflexivity.
+  - intros n [<-|[]]. left. reflexivity.
+  - rewrite <- (map_id objs1) at 1. apply map_ext. intros [k o]. cbn [fst snd]. rewrite fixP_nil. reflexivity.
+Qed.
+
+(* two dicts with the same lookups are permutations of each other *)
+Lemma alookup_in_nodup {V} (l : list (string * V)) k v : NoDup (map fst l) -> (In (k, v) l <-> alookup k l = Some v).
+Proof.
+  induction l as [|[k0 v0] r IH]; cbn [map fst In alookup]; intros ND; [split; [contradiction|discriminate]|].
+  inversion ND as [|? ? Hn ND']; subst. destruct (String.eqb k k0) eqn:E.
+  - apply String.eqb_eq in E. subst k0. split.
+    + intros [H|H]; [inversion H; reflexivity|]. exfalso. apply Hn. apply in_map_iff. exists (k, v). auto.
+    + intros H. inversion H. left. reflexivity.
+  - rewrite <- (IH ND'). split; [intros [H|H]; [inversion H; subst; rewrite String.eqb_refl in E; discriminate|exact H]|auto].
+Qed.
+Lemma nodup_pairs {V} (l : list (string * V)) : NoDup (map fst l) -> NoDup l.
+Proof.
+  induction l as [|[k0 v0] r IH]; cbn [map fst]; intros ND; [constructor|]. inversion ND as [|? ? Hn ND']; subst.
+  constructor; [|apply IH; exact ND']. intros Hin. apply Hn. apply in_map_iff. exists (k0, v0). auto.
+Qed.
+Lemma dict_perm {V} (l1 l2 : list (string * V)) : NoDup (map fst l1) -> NoDup (map fst l2) ->
+  (forall k, alookup k l1 = alookup k l2) -> Permutation l1 l2.
+Proof.
+  intros N1 N2 H. apply NoDup_Permutation; [apply nodup_pairs; exact N1|apply nodup_pairs; exact N2|].
+  intros [k v]. rewrite (alookup_in_nodup l1 k v N1), (alookup_in_nodup l2 k v N2), H. tauto.
+Qed.
+
+Definition view_of (kso : xid * psofa) : string * lview :=
+  (ps_name (snd kso), mkLv (lsofa_of (snd kso)) (members_for pviews (snd kso))).
+Lemma alookup_view_of sofas kso : NoDup (names sofas) -> In kso sofas ->
+  alookup (ps_name (snd kso)) (map view_of sofas) = Some (snd (view_of kso)).
+Proof.
+  induction sofas as [|x r IH]; intros ND Hin; [contradiction|]. cbn [names map] in ND. inversion ND as [|? ? Hn ND']; subst.
+  cbn [map alookup view_of fst]. destruct Hin as [->|Hin]; [rewrite String.eqb_refl; reflexivity|].
+  destruct (String.eqb (ps_name (snd kso)) (ps_name (snd x))) eqn:E; [|apply IH; assumption].
+  apply String.eqb_eq in E. exfalso. apply Hn. rewrite <- E. unfold names. apply (in_map (fun kso => ps_name (snd kso))). exact Hin.
+Qed.
+Lemma inv_final sofas views objs : Inv pviews objs1 sofas views objs -> NoDup (names sofas) -> In INITIAL (names sofas) ->
+  Permutation views (map view_of sofas).
+Proof.
+  intros [Ind Ilook _ Ikeys _] ND Hini. apply dict_perm; [exact Ind| |].
+  - rewrite map_map. exact ND.
+  - intros n. destruct (in_dec string_dec n (names sofas)) as [Hin|Hn].
+    + unfold names in Hin. apply in_map_iff in Hin as (kso & <- & Hin). rewrite (Ilook kso Hin), (alookup_view_of sofas kso ND Hin). reflexivity.
+    + assert (H1 : alookup n views = None).
+      { apply alookup_none_notin. intros Hin. apply Ikeys in Hin as [->|Hin]; contradiction. }
+      assert (H2 : alookup n (map view_of sofas) = None).
+      { apply alookup_none_notin. rewrite map_map. exact Hn. }
+      congruence.
+Qed.
+End ViewLoop3.
